@@ -1,4 +1,5 @@
 //! vmon — runtime monitors for bc-envelope (see /verif/DESIGN.md).
+pub mod adv;
 pub mod ctx;
 pub mod gen;
 pub mod json;
